@@ -72,7 +72,9 @@ def run_tlc(module, cfg, cwd, workers=4, simulate=None, depth=None, env=None, ti
     """Run TLC on `module`.tla with `cfg` in directory `cwd`."""
     os.makedirs(WORK, exist_ok=True)
     meta = os.path.join(WORK, "%s-%d-%d" % (work_id, os.getpid(), int(time.time() * 1000) % 100000000))
-    cmd = ["timeout", str(timeout), "java", "-Xss1g", "-Xmx" + heap, "-XX:+UseParallelGC"]
+    jtmp = meta + "-tmp"
+    os.makedirs(jtmp, exist_ok=True)
+    cmd = ["timeout", str(timeout), "java", "-Xss1g", "-Xmx" + heap, "-XX:+UseParallelGC", "-Djava.io.tmpdir=" + jtmp]
     if deque:
         cmd.append("-Dtlc2.tool.queue.IStateQueue=StateDeque")
     cmd += ["-cp", TLA_CP, "tlc2.TLC", "-workers", str(workers), "-metadir", meta,
@@ -100,6 +102,7 @@ def run_tlc(module, cfg, cwd, workers=4, simulate=None, depth=None, env=None, ti
                            text=True, errors="replace")
     finally:
         shutil.rmtree(meta, ignore_errors=True)
+        shutil.rmtree(jtmp, ignore_errors=True)
     r = TLCResult()
     r.wall = time.time() - t0
     r.rc = p.returncode
@@ -329,7 +332,8 @@ class Ctx:
                                      "name": r.violated_name, "trace": r.trace[:400]}))
 
     def require_cover(self, name, r, actions):
-        missing = [a for a in actions if r.coverage.get(a, (0, 0))[1] == 0]
+        # an action counts as exercised when it was taken at all (it may only lead to states already known)
+        missing = [a for a in actions if max(r.coverage.get(a, (0, 0))) == 0]
         if missing:
             raise ToolError("vacuity guard: TLC run %s never took action(s) %s" % (name, missing))
 
